@@ -80,6 +80,8 @@ pub fn run(tier: &str, seed: u64, out: &str) {
             let t = read_tree(&dest);
             if let Some(p) = t.keys().find(|k| k.starts_with("src/model/") && *k != "src/model/mod.rs") { let _ = std::fs::write(dest.join(p), b"pub struct Torn { caf\xe9"); }
             if let Some(p) = t.keys().find(|k| k.starts_with("src/request/") && *k != "src/request/mod.rs") { let _ = std::fs::write(dest.join(p), b"// libninja: static\n// r\xe9sum\xe9 kept by hand\n"); }
+            // ... and the request index carries the `after` directive below a comment saved in another encoding
+            let _ = std::fs::write(dest.join("src/request/mod.rs"), b"// caf\xe9 notes\n// libninja: after\nold text\n");
             let _ = std::fs::remove_file(dest.join("src/lib.rs"));
         }
         let r = run_cli(&root, &spec.to_string_lossy(), &dest.to_string_lossy(), &c.cfg, 20);
